@@ -438,7 +438,7 @@ def s3(chk: Check, proj: Project, m) -> None:
 
 
 MANIFEST = {
-    "text": "Decides agreement of the five tables that enumerate the asset pairs (fields, exclusivity loop, lazy setup, lazy-attribute list, pair groups of the MRO lookup), that the exclusivity loop cannot leave early, that no character-set strip is used as suffix removal, that the per-class Media memo is written only after all selected bases are memoised with 'resolved' judged by the memo alone and a value cone free of the requested class and the work list (access-order independence), and the extend trichotomy. Also: every class gets its own descriptor for every lazy attribute, the resolved flag is published last, and the library base class is identified by its full import path. Round 4 / triage: own Media only (never the inherited one), inputs resolved before Media is read, the merge loop skips only missing memo entries, the MRO walk is never cut short. Round 5: the attribute getter is read-only, _resolve_media touches its own class only, the class's own Media is never discarded before `extend` is read. Round 6: relative Media paths are rewritten whenever the class is marked resolved; no step budget derived from the MRO in the work loop; every accepted form of Media.css ends as a dict (F46).",
+    "text": "Decides agreement of the five tables that enumerate the asset pairs (fields, exclusivity loop, lazy setup, lazy-attribute list, pair groups of the MRO lookup), that the exclusivity loop cannot leave early, that no character-set strip is used as suffix removal, that the per-class Media memo is written only after all selected bases are memoised with 'resolved' judged by the memo alone and a value cone free of the requested class and the work list (access-order independence), and the extend trichotomy. Also: every class gets its own descriptor for every lazy attribute, the resolved flag is published last, and the library base class is identified by its full import path. Round 4 / triage: own Media only (never the inherited one), inputs resolved before Media is read, the merge loop skips only missing memo entries, the MRO walk is never cut short. Round 5: the attribute getter is read-only, _resolve_media touches its own class only, the class's own Media is never discarded before `extend` is read. Round 6: relative Media paths are rewritten whenever the class is marked resolved; no step budget derived from the MRO in the work loop; every accepted form of Media.css ends as a dict (F46). Round 7: inherited short forms of Media.css / js are normalised too; the memo entry is complete when published.",
     "note": "Trusted: Django's Media.__add__ merge. Not decided: the resulting file set/order; behaviour on real files.",
     "technique": "static table agreement, def-use cone / purity analysis of the memo, dominance, lint with positive fixture",
 }
